@@ -124,3 +124,11 @@ package log
 //@   loop#1 invariant indexed(unique, uIndex) && samearray(unique, attrs) && cap(unique) == cap(attrs) && len(unique) <= $k && uIndex != nil && rIndex != nil
 //@   loop#1 invariant r.nFront == old(r.nFront) && len(r.back) == old(len(r.back)) && r.attributeCountLimit == old(r.attributeCountLimit) && r.attributeValueLengthLimit == old(r.attributeValueLengthLimit) && r.nFront <= 5 && 0 <= r.nFront && r.dropped >= 0 && r.back === old(r.back)
 //@   loop#1 invariant forall k string : has(rIndex, k) ==> (rIndex[k] < 0 ==> 0 <= -(rIndex[k] + 1) && -(rIndex[k] + 1) < r.nFront) && (rIndex[k] >= 0 ==> rIndex[k] < len(r.back))
+
+// ---- truncate: same code and same contract text as sdk/trace.truncate (C04)
+//@ func truncate(limit int, s string) (r string)
+//@   ensures limit < 0 || len(s) <= limit ==> r == s
+//@   loop#1 invariant 0 <= count && count <= limit && count == runes_upto(s, $off)
+//@   loop#2 invariant 0 <= i && i <= len(s) && count <= limit
+//@   assert@return#2 : runes_upto(s, i) == limit
+//@   assert@return#3 : count == runes_upto(s, len(s)) && count <= limit
